@@ -29,11 +29,17 @@ RULE = ('cases = shape x value class x NaN pattern x (dx, wavelength) x options:
         'file-object target, multi_intensity_action, config.precision 32; three routes (io Zygo pair, Interferogram save/load, Code V pair).  '
         'Truncation: every cut point of several written files per format (quick: the last 64 bytes plus every 7th before; thorough: every '
         'byte), read through io.read_zygo_dat AND Interferogram.from_zygo_dat / read_codev_gridint.  A case is non-trivial unless the map is '
-        '1x1 or constant; distinct = distinct (item, shape, class, NaN pattern, options, seed-derived values) tuples.')
+        '1x1 or constant; distinct = distinct (item, shape, class, NaN pattern, options, seed-derived values) tuples.  '
+        'Instrument-style Zygo files (items *.foreign): written files re-declared with phase_res 0/1/2 (and an undefined code 3), scale / '
+        'obliquity factors (fixed and random float32), header_size 834+{0,1,3,6}, an intensity block of 0..4 frames (ac_n_buckets 0 included) '
+        'and multi_intensity_action first/last/avg in any case, cycled so that every pair of settings occurs; read through io and Interferogram, '
+        'phase, header fields and the selected intensity frame compared with the layout model, every cut point of several of them.  Code V files '
+        're-declared (codev.foreign): keyword order x case x WVL/SSZ units x NDA sentinel x leading "!" lines x data line layout, with cuts.  '
+        'Call histories (ifg.history): save -> load -> save -> load -> save -> load of an Interferogram, each generation judged against the previous one.')
 ASSUMPTIONS = [
     'struct.pack/unpack, float32 rounding, np.savetxt / np.fromstring text formatting and tokenisation are trusted (modelled by Lean Float32 / by the harness tokeniser)',
     'IEEE arithmetic of NumPy and of Lean `Float`/`Float32` agree operation by operation: values are compared bit for bit; a difference of a few ulp / one count with the round trip holding is recorded as a note (re-associated arithmetic), anything else is a disagreement',
-    'the intensity block is absent (ac_width = ac_height = 0) and header_size = 834, as in every file the library writes; the model reader uses the constant 834',
+    'library-written files have no intensity block and header_size = 834 (PROVED: zygo_written_layout); the layout model (zygoReadL) takes header_size, ac_width, ac_height, ac_n_buckets from the header and is compared on instrument-style files; intensity samples are native-endian uint16 (little-endian on the machines the check runs on)',
     'float32 header fields: dx and wavelength are compared with relative tolerance 2^-23 (format limitation); with config.precision = 32 the representation error of the requested float32 result (2^-22 relative) is added to the one-step bound',
     'Code V files carry neither lateral spacing nor a physical wavelength (WVL 1.0 is a scale unit): the "same dx and wavelength" clause does not apply to that route',
     'samples outside the int32 / int16 format range are out of scope (the writers do not range-check); comments are single-line titles that do not start with "!"',
@@ -901,6 +907,89 @@ def _cv_foreign_family(ctx, pio, tmp, crec):
                 ctx.pred_fail('codev.foreign_truncation', case, bad)
 
 
+# ------------------------------------------------------------------------------------------------
+# call histories: an Interferogram that was LOADED from a file (meta, intensity, wavelength taken from the header) is saved
+# again and re-loaded, twice.  Every generation must satisfy the property against the previous one, the header fields
+# (spacing, wavelength: float32 values) must be stable from the first generation on, and the bytes of every generation
+# are those the model writes for the values of the previous one.
+# ------------------------------------------------------------------------------------------------
+def history_pred(a, dx, wvl, tmp, gens=3):
+    pio, Interferogram = _impl()
+    f = os.path.join(tmp, 'h.dat')
+    with _quiet():
+        Interferogram(np.array(a, dtype=float), dx=dx, wavelength=wvl).save_zygo_dat(f)
+        prev = Interferogram.from_zygo_dat(f)
+        for g in range(2, gens + 1):
+            prev.save_zygo_dat(f)
+            cur = Interferogram.from_zygo_dat(f)
+            bad = judge_zygo(prev.data, prev.dx, prev.wavelength, cur.data, cur.dx, cur.wavelength, cur.meta)
+            if bad is None and (cur.meta['lateral_resolution'] != prev.meta['lateral_resolution'] or cur.meta['wavelength'] != prev.meta['wavelength']):
+                bad = (f'header drifts: lateral_resolution {prev.meta["lateral_resolution"]!r} -> {cur.meta["lateral_resolution"]!r}, '
+                       f'wavelength {prev.meta["wavelength"]!r} -> {cur.meta["wavelength"]!r}')
+            if bad:
+                return f'generation {g} (save of a loaded interferogram, re-loaded): {bad}'
+            prev = cur
+    return None
+
+
+def _history_family(ctx, pio, Interferogram, tmp, ic):
+    f2w = C.f2w
+    cases = [c for c in ic if c['v'].size <= 60 and c['opt']['dtype'] == 'f8' and not c['opt']['prec32'] and c['nan'] != 'all'][:ctx.scale(25, 300)]
+    recs, lines = [], []
+    drift = 0
+    for c in cases:
+        f = os.path.join(tmp, 'hf.dat')
+        rec = {'c': c, 'gens': []}
+        try:
+            with _quiet():
+                Interferogram(c['a'], dx=c['dx'], wavelength=c['wvl']).save_zygo_dat(f)
+                prev = Interferogram.from_zygo_dat(f)
+                for g in (2, 3):
+                    prev.save_zygo_dat(f)
+                    raw = open(f, 'rb').read()
+                    cur = Interferogram.from_zygo_dat(f)
+                    ts = int.from_bytes(raw[76:80], 'big')
+                    h, w_ = prev.data.shape
+                    lines.append(f'zfile {h} {w_} {f2w(float(prev.dx))} {f2w(float(prev.wavelength))} {ts} ' + ' '.join(f2w(float(v)) for v in np.asarray(prev.data, dtype=np.float64).ravel()))
+                    rec['gens'].append((g, prev, cur, raw))
+                    prev = cur
+        except Exception as ex:   # noqa
+            rec['err'] = f'{type(ex).__name__}: {ex}'
+        recs.append(rec)
+    rep = iter(C.lean_driver('C14', lines))
+    for rec in recs:
+        c = rec['c']
+        case = descr(c, {'route': 'ifg'})
+        case['opt'] = dict(c['opt'], history=3)
+        for g, prev, cur, raw in rec['gens']:
+            mfile = next(rep)
+            ctx.case('ifg.history', {'shape': case['shape'], 'values': case['values'], 'gen': g}, nontrivial=nontrivial(c), tag=f'gen{g}/{c["cls"]}/{c["nan"]}')
+            bad = judge_zygo(prev.data, prev.dx, prev.wavelength, cur.data, cur.dx, cur.wavelength, cur.meta)
+            if bad is None and (cur.meta['lateral_resolution'] != prev.meta['lateral_resolution'] or cur.meta['wavelength'] != prev.meta['wavelength']):
+                bad = 'header drifts between generations: spacing / wavelength'
+            if raw.hex() != mfile:
+                mb = bytes.fromhex(mfile) if len(mfile) % 2 == 0 else b''
+                ia = np.frombuffer(raw[834:], dtype='>i4').astype(np.int64)
+                ib = np.frombuffer(mb[834:], dtype='>i4').astype(np.int64) if len(mb) == len(raw) else None
+                if ib is not None and raw[:834] == mb[:834] and bad is None and close_ints(ia, ib):
+                    ctx.notes.append('ifg.history: integers differ from the model by one count at most and the round trip holds: not counted as a disagreement')
+                else:
+                    off = next((i for i in range(min(len(raw), len(mb))) if raw[i] != mb[i]), min(len(raw), len(mb)))
+                    ctx.disagree('ifg.history', {**case, 'gen': g}, f'{len(raw)} bytes; first difference at byte {off}', f'{len(mb)} bytes')
+            ok = ~np.isnan(np.asarray(prev.data, dtype=np.float64))
+            if ok.any() and not same_bits(np.asarray(prev.data)[ok], np.asarray(cur.data)[ok]):
+                drift += 1
+            if bad:
+                ctx.pred_fail('ifg.history', case, f'generation {g}: {bad}')
+        if 'err' in rec:
+            ctx.case('ifg.history', {'shape': case['shape'], 'values': case['values'], 'gen': 0}, nontrivial=True, tag='raised')
+            ctx.pred_fail('ifg.history', case, 'saving / re-loading a loaded interferogram raised ' + rec['err'])
+    if drift:
+        ctx.notes.append(f'ifg.history: {drift} of {sum(len(r["gens"]) for r in recs)} re-saved generations lose one count on some sample (floating-point '
+                         'n*q/q just below n is truncated to n-1): within one quantisation step, so inside the property; exact arithmetic '
+                         'is idempotent (theorem zygo_requantise_exact)')
+
+
 def _rewrite(f, raw):
     with open(f, 'wb') as fh:
         fh.write(raw)
@@ -1318,6 +1407,7 @@ def _correspondence(ctx, pio, Interferogram, tmp):
 
     _foreign_family(ctx, pio, Interferogram, tmp, zc)
     _cv_foreign_family(ctx, pio, tmp, crec)
+    _history_family(ctx, pio, Interferogram, tmp, ic)
 
     # large maps (dimensions and sizes the list-based model would take too long on): real code + predicates only
     for route in ('zygo', 'ifg', 'codev'):
@@ -1375,6 +1465,8 @@ def _run_pred(route, a, dx, wvl, tmp, opt=None):
         return foreign_pred(route, a, dx, wvl, opt['foreign'], tmp, prec32=bool(opt.get('prec32')))
     if opt and opt.get('cvforeign'):
         return cv_foreign_pred(_apply_dtype(a, opt), opt['cvforeign'], tmp, opt={k: v for k, v in opt.items() if k != 'cvforeign'})
+    if opt and opt.get('history'):
+        return history_pred(a, dx, wvl, tmp, gens=int(opt['history']))
     a = _apply_dtype(a, opt)
     if route in ('zygo', 'ifg'):
         return pred_zygo_roundtrip(route, tmp, a, dx, wvl, opt)
@@ -1465,6 +1557,10 @@ def search(ctx, hints):
                     for route in ('zygo', 'ifg'):
                         consider(route, a, 0.5, 0.6328, opt={'foreign': foreign_variant(i)})
                 if best is not None:
+                    break
+        if best is None:
+            for shape, name, a in list(_small_maps())[:40]:
+                if consider('ifg', a, 0.5, 0.6328, opt={'history': 3}):
                     break
         if best is None:
             for (h, w) in ((1, 2), (2, 3)):
@@ -1586,12 +1682,27 @@ MANIFEST_ENTRY = {
              'emit (typ SUR/WFR/FIL, NNB) is accepted by the generated keyword table of the reader, the generated line layout divides every '
              'map size, end to end over the model every integer comes back in place, and on the TEXT of the data block every cut point is '
              'rejected or warned with only the last (possibly cut) number invalid; the mm/m and um/m conversions of the Interferogram pair '
-             'are exact inverses and inherit the relative error of the float32 field.  TRANSLATED from the current source on every run (16 '
-             'items).  MODELLED AND COMPARED: every byte of written .dat files, all 158 decoded header fields, every token of written grid INT '
+             'are exact inverses and inherit the relative error of the float32 field.  FILE LAYOUT (session 3): the reader\'s block arithmetic '
+             '(bucket default, ilen, intensity offset / count / dtype / frame order, phase offset / count / dtype, frame selection table, header '
+             'keys) is generated and proved equal to the model, the phase block starts exactly where the intensity block ends and the truncation '
+             'repair re-reads from that same offset (gen_zygo_layout); every written file declares header_size 834 and an empty intensity block, '
+             'so the reader\'s phase offset is the length of the written header (zygo_written_layout); for ANY header length and intensity block '
+             'content the reader returns for the phase bytes what it returns for a plain file (intensity_block_transparent), hence every cut point '
+             'of a file WITH an intensity block is rejected (header / intensity cut) or warned with exactly the complete samples valid '
+             '(truncation_safe_layout, full_file_layout_reads_back); every resolution code of the generated table is positive, a file declaring '
+             'S, O, code R reads S*O*32768/R times the plain value (zygo_declared_factors) and quantisation is within one step for every code and '
+             'positive factors (zygo_quant_error_any_resolution); re-saving a loaded map reproduces the counts in exact arithmetic '
+             '(zygo_requantise_exact); Code V WVL w with SSZ*w reads as WVL 1 (codev_unit_invariant).  TRANSLATED from the current source on every '
+             'run (17 items).  MODELLED AND COMPARED: instrument-style Zygo files (phase_res, scale, obliquity, header length, intensity block, frame '
+             'action; phase + header + intensity frame bit for bit, every cut point), re-declared Code V headers (order, case, units, sentinel, "!" '
+             'comment lines, layout), save/load/save histories of Interferogram (bytes of each generation against the model); every byte of written .dat files, all 158 decoded header fields, every token of written grid INT '
              'files, every bit of the arrays read back (float64 and float32 results), reader behaviour at every truncation point of several '
              'files through all three routes; the property predicates are evaluated on the real outputs independently of the model.  ONLY '
              'COMPARED, not proved: IEEE evaluation of the formulas, struct/float32 packing, text tokenisation, that k < 834 is rejected by '
-             'NumPy.  NOT COVERED: .datx (HDF5) and Zygo ASCII (no writer/reader pair), intensity frames, multi-line or "!"-leading comments.'),
+             'NumPy; the "!" comment skipping and title/header line split of the Code V reader (sampled by codev.foreign, not translated); '
+             'uint16 intensity decoding (compared, no theorem).  OBSERVED, inside the property: a re-saved loaded map can lose one count per '
+             'generation on some samples (float n*q/q just below n, truncated) - within one step each time.  NOT COVERED: .datx (HDF5) and Zygo '
+             'ASCII (no reader), writing intensity (write_zygo_dat ignores its intensity argument), multi-line titles or titles starting with "!".'),
     'note': ('Trusted: Lean kernel + propext/Classical.choice/Quot.sound; tools/gen_c14.py (validated each run: every generated header row '
              'is compared with the run-time table and struct.calcsize/struct.pack through the driver); struct, float32 conversion and text '
              'formatting; IEEE agreement between NumPy and Lean Float (values compared bit for bit, so any disagreement shows).'),
